@@ -226,6 +226,7 @@ fn check_random(t: &mut Tape, ctx: &Ctx) -> Outcome {
             mutate(t, &base)
         }
         2 => spelled_snippet(t),
+        3 if t.chance(1, 3) => limit_line(t),
         _ => any_line(t),
     };
     if s.contains('\n') || s.contains('\r') {
@@ -233,6 +234,26 @@ fn check_random(t: &mut Tape, ctx: &Ctx) -> Outcome {
         return Outcome::discard("contains a line terminator");
     }
     outcome(&s, roundtrip(&s, true), ctx)
+}
+
+/// A canonical line whose text is within a few bytes of the 1024-byte line limit (both sides).
+fn limit_line(t: &mut Tape) -> String {
+    let target = (1024 + t.range(-3, 2)) as usize;
+    let (head, tail) = match t.below(4) {
+        0 => ("10 REM ", ""),
+        1 => ("10 PRINT \"", "\""),
+        2 => ("65529 A$ = \"", "\":GOTO 65529"),
+        _ => ("10 '", ""),
+    };
+    let unit = *t.pick(&["x", "é", "ab ", "日"]);
+    let mut mid = String::new();
+    while head.len() + mid.len() + tail.len() + unit.len() <= target {
+        mid.push_str(unit);
+    }
+    while head.len() + mid.len() + tail.len() < target {
+        mid.push('y');
+    }
+    format!("{}{}{}", head, mid, tail)
 }
 
 /// A snippet line in a random spelling: random case, blanks dropped/added between tokens.
